@@ -110,12 +110,12 @@ CONTRACTS = [
              internal_ensures=[("every-waiting-read-failed-once-in-order", f"gd == old({W})"),
                                ("connection-dropped-once", "bcall_names() == ['loseConnection']")],
              loops={0: {"header": "self._waiting_reads",
-                        "ghost_init": {"gd": f"empty_seq('{DEFERRED}')"}, "ghost_update": {"gd": "gd + [d]"},
+                        "ghost_init": {"gd": f"empty_seq('{DEFERRED}')"}, "ghost_update": {"gd": "gd + [iter_bcall_arg('errback', 0, 0)]"},
                         "invariant": [f"at_entry({W}) == gd + {W}"],
                         "body_ensures": ["iter_bcall_names() == ['errback']",
                                          f"iter_bcall_arg('errback', 0, 0) == at_iter({W})[0]",
                                          "exc_class(iter_bcall_arg('errback', 0, 1)) == 'error.ConnectionClosed'",
-                                         f"d == at_iter({W})[0] and {W} == at_iter({W})[1:]"]}},
+                                         f"{W} == at_iter({W})[1:]"]}},
              note="ghost gd: the reads errbacked so far; each iteration errbacks exactly the oldest waiting read, once"),
     Contract(T + "Connection.connectionLost", props=[PROP], params={"reason": "none"},
              self_fields={**F_QUEUES, **F_NEG, "_consumer_deferred": f"opt[{DEFERRED}]"},
@@ -137,12 +137,12 @@ CONTRACTS = [
                   "bcalls('errback') == ite(old(self._negotiation_d) is not None, 1, 0) + ite(self._consumer_deferred is not None, 1, 0) "
                   "and len(bcall_names()) == 1 + bcalls('errback')")],
              loops={0: {"header": "self._waiting_reads",
-                        "ghost_init": {"gd": f"empty_seq('{DEFERRED}')"}, "ghost_update": {"gd": "gd + [d]"},
+                        "ghost_init": {"gd": f"empty_seq('{DEFERRED}')"}, "ghost_update": {"gd": "gd + [iter_bcall_arg('errback', 0, 0)]"},
                         "invariant": [f"at_entry({W}) == gd + {W}"],
                         "body_ensures": ["iter_bcall_names() == ['errback']",
                                          f"iter_bcall_arg('errback', 0, 0) == at_iter({W})[0]",
                                          "exc_class(iter_bcall_arg('errback', 0, 1)) == 'error.ConnectionClosed'",
-                                         f"d == at_iter({W})[0] and {W} == at_iter({W})[1:]"]}},
+                                         f"{W} == at_iter({W})[1:]"]}},
              note="pending reads fail (each once, oldest first), a still-pending negotiation fails with the recorded error, a "
                   "pending consumer Deferred fails"),
     Contract(T + "Connection.dataReceivedRECORDS", props=[PROP], params={},
